@@ -104,14 +104,15 @@ static SCHEDULES: StdAtomicUsize = StdAtomicUsize::new(0);
 static OUTCOMES_KNOWN: StdAtomicUsize = StdAtomicUsize::new(0);
 
 /// known: 0 = delta launches nothing; 1 = it launches a command it understands (published as known);
-/// 2 = it launches a command it does not describe (`git status`): the guess stays in force
+/// 2 = it launches a command it has no special handling for (`git status`): that command is what is reported
+/// (CallingProcess::None), not the guess
 fn scenario(known: usize, main_queries: usize, thread_queries: usize, n_threads: usize) {
     use utils::process::*;
     SCHEDULES.fetch_add(1, StdOrdering::SeqCst);
     start_determining_calling_process_in_thread();
     let known_args = ["git", "grep", "-n", "x"];
     let unparsed_args = ["git", "status"];
-    let expected = if known == 1 { parse(&known_args) } else { harness_guess() };
+    let expected = if known == 1 { parse(&known_args) } else if known == 2 { CallingProcess::None } else { harness_guess() };
     if known == 1 {
         let v: Vec<String> = known_args.iter().map(|s| s.to_string()).collect();
         set_calling_process(&v);
